@@ -21,8 +21,9 @@ VARIABLES l,      \* next line to judge
           cre,    \* ids created successfully, as a sequence (an id created twice = uuid conflict, exempt)
           seen,   \* [replica -> ids ever observed present there]
           skewed, \* some write of this history was stamped earlier than a change its replica had already received
+          revoked,\* <<entry, session>> pairs some replica has shown as revoked in this history
           dead    \* [replica -> ids observed deleted (present and not live, or gone after being present)]
-vars == <<l, del, rev, cre, seen, skewed, dead>>
+vars == <<l, del, rev, cre, seen, skewed, revoked, dead>>
 
 \* ------------------------------------------------------------------ projection helpers
 Get(f, r) == IF r \in DOMAIN f THEN f[r] ELSE {}
@@ -98,6 +99,16 @@ SesDominated(i) == \A r1, r2 \in Reps(i) : \A x \in (DOMAIN Ents(i, r1)) \cap (D
                       LET a == Ents(i, r1)[x].ses  b == Ents(i, r2)[x].ses IN Dominates(a, b) \/ Dominates(b, a)
 SesSig(i) == IF ConvergedCore(i) /\ SesDominated(i) THEN "session-merge-not-propagated" ELSE "session-diverged"
 
+\* ------------------------------------------------------------------ C11 (system level)
+RevokedNow(i) == {<<x, k>> \in UNION {{<<y, j>> : j \in DOMAIN Ents(i, r)[y].ses} : <<r, y>> \in
+                       {p \in Reps(i) \X UNION {DOMAIN Ents(i, q) : q \in Reps(i)} : p[2] \in DOMAIN Ents(i, p[1])}} :
+                    \E r \in Reps(i) : x \in DOMAIN Ents(i, r) /\ k \in DOMAIN Ents(i, r)[x].ses /\ Ents(i, r)[x].ses[k].st = 2}
+Revoked2 == IF IsInit(l) THEN {} ELSE revoked \cup RevokedNow(l)
+\* a session any replica has revoked is not usable anywhere once the replicas are quiescent
+RevocationSticky(i) == IsQuiescentMesh(i) =>
+   \A p \in Revoked2 : \A r \in Reps(i) :
+      (p[1] \in DOMAIN Ents(i, r) /\ p[2] \in DOMAIN Ents(i, r)[p[1]].ses) => Ents(i, r)[p[1]].ses[p[2]].st = 2
+
 \* ------------------------------------------------------------------ C09
 NoResurrectionStep(i) ==
   /\ \A r \in Reps(i) : \A x \in (Get(dead, r) \cap Tracked) : ~LiveAt(i, r, x)
@@ -115,12 +126,12 @@ RangeDecision(i) ==
        /\ (exp = "refresh") <=> (Rec[i].res.sup = "refresh_required")
 
 \* ------------------------------------------------------------------ stepping
-Init == l = 1 /\ del = {} /\ rev = {} /\ cre = <<>> /\ seen = <<>> /\ dead = <<>> /\ skewed = FALSE
+Init == l = 1 /\ del = {} /\ rev = {} /\ cre = <<>> /\ seen = <<>> /\ dead = <<>> /\ skewed = FALSE /\ revoked = {}
 
 Next ==
   /\ l <= Len(Rec)
   /\ l' = l + 1
-  /\ del' = Del2 /\ rev' = Rev2 /\ cre' = Cre2 /\ skewed' = Skew2
+  /\ del' = Del2 /\ rev' = Rev2 /\ cre' = Cre2 /\ skewed' = Skew2 /\ revoked' = Revoked2
   /\ seen' = [r \in Reps(l) |-> (IF IsInit(l) THEN {} ELSE Get(seen, r)) \cup DOMAIN Ents(l, r)]
   /\ dead' = [r \in Reps(l) |->
                 (IF IsInit(l) THEN {} ELSE Get(dead, r))
@@ -137,6 +148,7 @@ Judge == l <= Len(Rec) =>
   /\ (NoResurrectionStep(l) \/ PrintT(<<"L1FAIL", "C09", l, "resurrected">>))
   /\ (RefusalInert(l)       \/ PrintT(<<"L1FAIL", "C09", l, "refusal-changed-consumer">>))
   /\ (RangeDecision(l)      \/ PrintT(<<"L1FAIL", "C09", l, "range-decision">>))
+  /\ (RevocationSticky(l)   \/ PrintT(<<"L1FAIL", "C11", l, "revocation-not-propagated">>))
   /\ (UniqueLive(l)         \/ PrintT(<<"L1FAIL", "C19", l, "duplicate">>))
   /\ ((Rec[l].op = "mesh" => Rec[l].res.q) \/ PrintT(<<"NOTQUIESCENT", l>>))
 
